@@ -511,6 +511,13 @@ def eval_hist(case, acc=None):
                     if marg != rcounts[g]:
                         viol.append(("C14/%s/marginal!=range_histogram" % site, case,
                                      {"range_edges": xe, "mean_edges": ye, "marginal": marg, "range_histogram": rcounts[g]}))
+                elif g in redges and redges[g] != xe and rspec is not None and rspec.get("t") == "int" and \
+                        (hspec.get("t") == "int" and hspec.get("n") == rspec.get("n")
+                         or hspec.get("t") == "2d" and hspec.get("x") == rspec.get("n")):
+                    # the same class count asked of both: both derive the range classes from the group's own ranges, so the
+                    # marginal statement is about the same classes - if they differ one of the two did not use the group's data
+                    viol.append(("C14/%s/range-classes-differ-from-range_histogram-for-the-same-count" % site, case,
+                                 {"group": g, "range_edges_histogram": xe, "range_edges_range_histogram": redges[g]}))
                 elif acc is not None and g in redges:
                     acc.count("marginal clause not applicable (a mean outside the covered range or different range classes)")
     if cycles is not None:
